@@ -139,6 +139,14 @@ func (k Keeper) RequestsByReqCtx(c context.Context, req *types.QueryRequestsByRe
 	}
 
 	ctx := sdk.UnwrapSDKContext(c)
+	if len(req.RequestContextId) != types.ContextIDLen {
+		return nil, sdkerrors.Wrapf(
+			types.ErrInvalidRequestContextID,
+			"invalid length, expected: %d, got: %d",
+			types.ContextIDLen, len(req.RequestContextId),
+		)
+	}
+
 	iterator := k.RequestsIteratorByReqCtx(ctx, req.RequestContextId, req.BatchCounter)
 	defer iterator.Close()
 
@@ -178,6 +186,14 @@ func (k Keeper) Responses(c context.Context, req *types.QueryResponsesRequest) (
 	}
 
 	ctx := sdk.UnwrapSDKContext(c)
+	if len(req.RequestContextId) != types.ContextIDLen {
+		return nil, sdkerrors.Wrapf(
+			types.ErrInvalidRequestContextID,
+			"invalid length, expected: %d, got: %d",
+			types.ContextIDLen, len(req.RequestContextId),
+		)
+	}
+
 	iterator := k.ResponsesIteratorByReqCtx(ctx, req.RequestContextId, req.BatchCounter)
 	defer iterator.Close()
 
